@@ -149,13 +149,17 @@ func (checker *Checker) rootOfAccessChain(target ast.Expression) (baseVariable *
 		case *ast.IndexExpression:
 			target = targetExp.TargetExpression
 			indexExprTypes, ok := checker.Elaboration.IndexExpressionTypes(targetExp)
-			var elementType Type
+			var elementType, indexedType Type
 			if !ok {
 				elementType = InvalidType
+				indexedType = InvalidType
 			} else {
 				elementType = indexExprTypes.IndexedType.ElementType(true)
+				indexedType = indexExprTypes.IndexedType
 			}
-			accessChain = append(accessChain, elementType)
+			// NOTE: also record the type of the indexed value:
+			// it might be a reference (or resource) that is held in a member, e.g. `s.ref[0]`
+			accessChain = append(accessChain, elementType, indexedType)
 		case *ast.MemberExpression:
 			target = targetExp.Expression
 			memberType, _, _, _ := checker.visitMember(targetExp, true)
@@ -217,6 +221,33 @@ func (checker *Checker) enforceViewAssignment(statement ast.Statement, target as
 	if baseVariable.DeclarationKind == common.DeclarationKindSelf {
 		if checker.functionActivations.Current().InitializationInfo == nil {
 			checker.ObserveImpureOperation(statement)
+			return
+		}
+
+		// Only the value being constructed is local to the view scope, the values it refers to are not:
+		// writing through a reference (or into a resource) that is held in one of the fields of `self`,
+		// e.g. `self.ref[0] = 1` or `self.refs[0].x = 1`, is a write to a value
+		// that existed before the constructor was called.
+		//
+		// All values between the written location and `self` must be writeable in a view context.
+		// The type of the written location itself (the element type of an outermost index expression)
+		// and the trailing types of `self` are not relevant.
+
+		start := 0
+		if _, ok := target.(*ast.IndexExpression); ok {
+			start = 1
+		}
+
+		end := len(accessChain)
+		for end > start && accessChain[end-1].Equal(baseVariable.Type) {
+			end--
+		}
+
+		for _, t := range accessChain[start:end] {
+			if !isWriteableInViewContext(t) {
+				checker.ObserveImpureOperation(statement)
+				return
+			}
 		}
 		return
 	}
